@@ -244,7 +244,7 @@ func specC14() *propertySpec {
 			{"C14-R2", "immutable-after-construction: tb, tbLog, rawLog, s, refDraws are stored only in newT", ruleC14R2},
 			{"C14-R3", "atomics: cleaning is used only through atomic.Bool methods", ruleC14R3},
 			{"C14-R4", "safe-closure: the callees of the safe methods touch no other T field (not draws) and call only allow-listed external APIs", ruleC14R4},
-			{"C14-R5", "atomic-updates: append to cleanups, pop in cleanup and the ctx re-check/store in Context each happen inside one write-locked region", ruleC14R5},
+			{"C14-R5", "atomic-updates: append to cleanups, pop in cleanup and the ctx re-check/store in Context each happen inside one write-locked region; Context returns only the published context (or a cancelled one while cleaning)", func(r *Run) { ruleC14R5(r); ruleC10R5(r) }},
 			{"C14-R6", "no-callback-under-lock: no dynamic call of a user-supplied function and no call re-acquiring T.mu while T.mu is held", ruleC14R6},
 		},
 	}
